@@ -10,8 +10,19 @@ use tx3_tir::model::v1beta0::Expression as E;
 
 pub fn collect_bytes(e: &E, out: &mut BTreeSet<Vec<u8>>) {
     match e {
-        E::Bytes(b) | E::Address(b) | E::Hash(b) => {
+        E::Bytes(b) | E::Address(b) => {
             out.insert(b.clone());
+        }
+        E::Hash(b) => {
+            out.insert(b.clone());
+            // a hash used where an address is expected stands for its script address
+            if b.len() == 28 {
+                for header in [0x70u8, 0x71] {
+                    let mut a = vec![header];
+                    a.extend(b);
+                    out.insert(a);
+                }
+            }
         }
         E::String(s) => {
             out.insert(s.as_bytes().to_vec());
